@@ -11,10 +11,16 @@
       (`C14_depthOne_callee_untouched`), to exactly their results
       (`C14_depthOne_caller_becomes_result`), and a second generation returns the same results
       over an unchanged store (`C14_depthOne_second_generation_same`).
+    * TREE fragment, call graphs of arbitrary depth: `C14_tree_mutation_bounded` (every entry
+      stays between the own accesses and the closure), `C14_tree_second_generation_same`
+      (a second generation reports the same SETS and leaves the generated entries the same sets),
+      `C14_tree_second_generation_ok`.
 -/
 import RattrProofs.Lemmas.Results
 import RattrProofs.Lemmas.ResultsCex
 import RattrProofs.Lemmas.ResultsDepthOne
+import RattrProofs.Lemmas.ResultsTree
+import RattrProofs.Lemmas.ResultsTreeCheck
 
 namespace Rattr.C14
 open Rattr Rattr.Results Rattr.Cex
@@ -120,5 +126,57 @@ theorem C14_depthOne_second_generation_same (P : Prog) (hP : DepthOne P) (order 
 example : DepthOne P1 ∧ storeAfter P1 σ1 [0, 1, 2] 2 = some (σ1 2) ∧
     storeAfter P1 σ1 [0, 1, 2] 0 ≠ some (σ1 0) :=
   ⟨P1_depthOne, by decide +kernel, by decide +kernel⟩
+
+/-! ### the tree fragment (arbitrary depth): the extent of the mutation, idempotence -/
+
+/-- In the tree fragment the IR mutation is bounded: after generating any sequence of roots every
+function's entry still contains what it held before and holds nothing outside its closure `Clo`
+(own accesses ∪ unbound closures of its resolvable callees); the entry of every generated root
+is its whole closure. -/
+theorem C14_tree_mutation_bounded (P : Prog) (hT : TreeLike P) (hC : CidArgs P) (order : List Key)
+    (σ σ' : Store) (rs : List (Key × IrSets)) (h : generate P order σ = .ok (rs, σ')) :
+    StoreLe σ σ' ∧ (∀ g k x, x ∈ (σ' g).of k → Clo P σ k g x) ∧
+      (∀ f ∈ order, ∀ k x, x ∈ (σ' f).of k ↔ Clo P σ k f x) := by
+  obtain ⟨_, _, a, b⟩ := generate_tree hT.2 hC order σ σ' rs (StoreInv.refl P σ) h
+  exact ⟨generate_le P order σ σ' rs h, a.2, fun f hf k x => ⟨a.2 f k x, b f hf k x⟩⟩
+
+/-- Membership-level idempotence: generating a second time over the mutated IR reports, for every
+root, the same SET of gets / sets / dels as the first time, and the entry of every generated root
+is the same set afterwards. -/
+theorem C14_tree_second_generation_same (P : Prog) (hT : TreeLike P) (hC : CidArgs P)
+    (order : List Key) (σ σ' σ'' : Store) (rs rs' : List (Key × IrSets))
+    (h : generate P order σ = .ok (rs, σ')) (h' : generate P order σ' = .ok (rs', σ'')) :
+    (∀ f res res', (f, res) ∈ rs → (f, res') ∈ rs' → ∀ x,
+      (x ∈ res.gets ↔ x ∈ res'.gets) ∧ (x ∈ res.sets ↔ x ∈ res'.sets) ∧
+      (x ∈ res.dels ↔ x ∈ res'.dels)) ∧
+    (∀ f ∈ order, ∀ x, (x ∈ (σ' f).gets ↔ x ∈ (σ'' f).gets) ∧
+      (x ∈ (σ' f).sets ↔ x ∈ (σ'' f).sets) ∧ (x ∈ (σ' f).dels ↔ x ∈ (σ'' f).dels)) := by
+  obtain ⟨_, a1, a2, a3⟩ := generate_tree hT.2 hC order σ σ' rs (StoreInv.refl P σ) h
+  obtain ⟨_, b1, b2, b3⟩ := generate_tree hT.2 hC order σ' σ'' rs' a2 h'
+  refine ⟨?_, ?_⟩
+  · intro f res res' m m' x
+    have key : ∀ k : Kind, x ∈ res.of k ↔ x ∈ res'.of k :=
+      fun k => (a1 f res m k x).trans (b1 f res' m' k x).symm
+    exact ⟨key .get, key .set, key .del⟩
+  · intro f hf x
+    have key : ∀ k : Kind, x ∈ (σ' f).of k ↔ x ∈ (σ'' f).of k :=
+      fun k => ⟨fun hx => b3 f hf k x (a2.2 f k x hx), fun hx => a3 f hf k x (b2.2 f k x hx)⟩
+    exact ⟨key .get, key .set, key .del⟩
+
+/-- …and the second generation does succeed, when no name in the closure of a callee can make
+`unbind_name` raise (`NoFail`; implied by the hypotheses of the C03 tree theorem). -/
+theorem C14_tree_second_generation_ok (P : Prog) (hT : TreeLike P) (hC : CidArgs P)
+    (order : List Key) (σ σ' : Store) (rs : List (Key × IrSets)) (hN : NoFail P σ)
+    (h : generate P order σ = .ok (rs, σ')) : ∃ rs' σ'', generate P order σ' = .ok (rs', σ'') := by
+  obtain ⟨_, _, a2, _⟩ := generate_tree hT.2 hC order σ σ' rs (StoreInv.refl P σ) h
+  exact generate_tree_ok hT.2 hC hN order σ' a2
+
+/-- non-vacuity: the 4-function chain; `a`'s IR is mutated (it gains the names of `b`, `c`, `d`)
+but the leaf `d` keeps its IR. -/
+example : TreeLike Pchain ∧ CidArgs Pchain ∧
+    storeAfter Pchain σchain [0, 1, 2, 3] 0 =
+      some ⟨[nm "x.a0" "x", nm "x.b0" "x", nm "x.d0" "x"], [nm "x.c0" "x"], [nm "x.d1" "x"]⟩ ∧
+    storeAfter Pchain σchain [0, 1, 2, 3] 3 = some (σchain 3) :=
+  ⟨Pchain_treeLike, Schain_hyps0.cid, by decide +kernel, by decide +kernel⟩
 
 end Rattr.C14
